@@ -1,5 +1,6 @@
 """C03 - each element is constructed once and destroyed once (rule family LIFE, DESIGN.md 5 C03)."""
 import itertools
+import re
 
 from .. import astx
 from .. import db as D
@@ -217,6 +218,40 @@ META = (META[0] + " " + META_EXTRA, META[1])
 META = (META[0] + ' L5 also covers move assignment of single-slot owners.', META[1])
 
 
+def trivreq_rule(chk, files=("_variant/variant.hpp", "_optional/optional.hpp", "_expected/expected.hpp")):
+    """TRIVREQ: a special member of a sum type may be trivial (defaulted) only if it is trivial for *every* alternative, and the
+    hand-written one takes over when *not all* are: every fold over a triviality trait in these headers is a conjunction
+    (`(... and is_trivially_destructible_v<Ts>)`). clang 14 does not implement prospective destructors (P0848), so the
+    constrained defaulted destructor is invisible to the extractor: this rule reads the comment-free source text."""
+    import os
+    n = 0
+    pat = re.compile(r"\(\s*\.\.\.\s*(and|or|&&|\|\|)\s*([\w:]*trivially[\w:]*\s*<[^()]*?>)\s*\)|"
+                     r"\(\s*([\w:]*trivially[\w:]*\s*<[^()]*?>)\s*(and|or|&&|\|\|)\s*\.\.\.\s*\)")
+    for rel in files:
+        path = os.path.join(D.ROOT, rel)
+        if not path or not os.path.exists(path):
+            continue
+        text = open(path).read()
+        text = re.sub(r"/\*.*?\*/", lambda m: "\n" * m.group(0).count("\n"), text, flags=re.S)
+        text = re.sub(r"//[^\n]*", "", text)
+        for m in pat.finditer(text):
+            op = m.group(1) or m.group(4)
+            trait = (m.group(2) or m.group(3)).strip()
+            line = text.count("\n", 0, m.start()) + 1
+            n += 1
+            label = "%s:%d fold over %s" % (rel, line, trait)
+            chk.instance("TRIVREQ")
+            ok = op in ("and", "&&")
+            chk.obligation("TRIVREQ", label, ok)
+            if not ok:
+                chk.violation("TRIVREQ", label, "disjunctive-triviality", "include/etl/%s:%d: `%s` folds the triviality trait with `%s`: the "
+                              "constraint holds as soon as one alternative is trivial, so the trivial special member is chosen although "
+                              "another alternative needs the hand-written one" % (rel, line, m.group(0).strip(), op), {"where": "include/etl/%s:%d" % (rel, line)})
+    if n < 3:
+        chk.analysis_broken("TRIVREQ: only %d folds over triviality traits found in the sum types (floor 3)" % n)
+    return n
+
+
 def run(chk, tier):
     db = D.load("checks")
     sigs = L.slot_signatures(db)
@@ -246,6 +281,7 @@ def run(chk, tier):
                 analyse_function(chk, db, sigs, owner, kind, rq, f, state)
                 nfun += 1
             rule_of_five(chk, db, rq)
+    trivreq_rule(chk)
     nvt = L.vt_rule(chk, db, sigs, "VT")
     if nvt < 8:
         chk.analysis_broken("VT: only %d special members of table-dispatching owners analysed (floor 8)" % nvt)
